@@ -91,6 +91,7 @@ type summary struct {
 	via      map[string]string // class -> callee chain through which it is acquired
 	exitHeld lockset           // classes possibly still held on return
 	rel      lockset           // classes released without having been acquired here
+	dyn      map[string]string // unfollowed calls inside (transitively): description -> kind
 }
 
 type analysis struct {
@@ -107,6 +108,7 @@ type analysis struct {
 	dynTotal  int
 	extUnder  int
 	recording bool
+	concrete  []types.Type // named types (and pointers to them) declared in the loaded packages
 }
 
 func (a *analysis) pos(p token.Pos) string {
@@ -226,7 +228,25 @@ func (a *analysis) addEdge(from, to string, w witness) {
 	}
 }
 
-func (a *analysis) noteUnfollowed(f *ssa.Function, c *ssa.CallCommon, kind string, held lockset) {
+func callDesc(c *ssa.CallCommon) string {
+	switch {
+	case c.IsInvoke():
+		return c.Value.Type().String() + "." + c.Method.Name()
+	case c.StaticCallee() != nil:
+		return c.StaticCallee().String()
+	}
+	return c.Value.String() + " : " + c.Value.Type().String()
+}
+
+func (a *analysis) noteUnfollowed(f *ssa.Function, c *ssa.CallCommon, kind string, held lockset, sum *summary) {
+	call := callDesc(c)
+	if sum != nil && len(sum.dyn) < 40 {
+		sum.dyn[call+" in "+fname(f)] = kind
+	}
+	a.recordUnfollowed(fname(f), a.pos(c.Pos()), kind, call, held)
+}
+
+func (a *analysis) recordUnfollowed(fn, pos, kind, call string, held lockset) {
 	if !a.recording {
 		return
 	}
@@ -234,16 +254,7 @@ func (a *analysis) noteUnfollowed(f *ssa.Function, c *ssa.CallCommon, kind strin
 	if len(held) == 0 {
 		return
 	}
-	call := ""
-	switch {
-	case c.IsInvoke():
-		call = c.Value.Type().String() + "." + c.Method.Name()
-	case c.StaticCallee() != nil:
-		call = c.StaticCallee().String()
-	default:
-		call = c.Value.String() + " : " + c.Value.Type().String()
-	}
-	u := unfollowed{Func: fname(f), Pos: a.pos(c.Pos()), Kind: kind, Call: call, Held: held.sorted()}
+	u := unfollowed{Func: fn, Pos: pos, Kind: kind, Call: call, Held: held.sorted()}
 	key := u.Func + "|" + u.Pos + "|" + u.Call
 	if a.unfSeen[key] {
 		return
@@ -275,21 +286,73 @@ func (a *analysis) applyCall(f *ssa.Function, c *ssa.CallCommon, held lockset, s
 	callee := c.StaticCallee()
 	switch {
 	case c.IsInvoke():
-		a.noteUnfollowed(f, c, "interface", held)
+		// class-hierarchy resolution restricted to the loaded packages: every
+		// concrete type declared there that implements the interface
+		impls := a.implementations(c)
+		for _, m := range impls {
+			a.applyStatic(f, c, m, held, sum)
+		}
+		kind := "interface"
+		if len(impls) > 0 {
+			kind = "interface (in-repo implementations followed)"
+		}
+		a.noteUnfollowed(f, c, kind, held, sum)
 		return
 	case callee == nil:
-		a.noteUnfollowed(f, c, "func-value", held)
+		a.noteUnfollowed(f, c, "func-value", held, sum)
 		return
 	case !a.loaded(callee):
-		// other modules / standard library: not followed; counted when a lock is held
-		if callee.Pkg != nil && strings.HasPrefix(callee.Pkg.Pkg.Path(), "github.com/pion/") && len(held) > 0 {
-			a.noteUnfollowed(f, c, "external", held)
+		// other modules / standard library: not followed; noted for pion modules
+		if callee.Pkg != nil && strings.HasPrefix(callee.Pkg.Pkg.Path(), "github.com/pion/") {
+			a.noteUnfollowed(f, c, "external", held, sum)
 		}
 		return
 	}
+	a.applyStatic(f, c, callee, held, sum)
+}
+
+// implementations of an interface method among the concrete types of the loaded packages.
+func (a *analysis) implementations(c *ssa.CallCommon) []*ssa.Function {
+	iface, ok := c.Value.Type().Underlying().(*types.Interface)
+	if !ok {
+		return nil
+	}
+	var out []*ssa.Function
+	for _, t := range a.concrete {
+		if !types.Implements(t, iface) {
+			continue
+		}
+		sel := a.prog.MethodSets.MethodSet(t).Lookup(c.Method.Pkg(), c.Method.Name())
+		if sel == nil {
+			continue
+		}
+		if m := a.prog.MethodValue(sel); a.loaded(m) {
+			dup := false
+			for _, o := range out {
+				if o == m {
+					dup = true
+				}
+			}
+			if !dup {
+				out = append(out, m)
+			}
+		}
+	}
+	return out
+}
+
+func (a *analysis) applyStatic(f *ssa.Function, c *ssa.CallCommon, callee *ssa.Function, held lockset, sum *summary) {
 	cs := a.sums[callee]
 	if cs == nil {
 		return
+	}
+	for d, kind := range cs.dyn {
+		if len(sum.dyn) < 40 {
+			sum.dyn[d] = kind
+		}
+		if len(held) > 0 {
+			a.recordUnfollowed(fname(f), a.pos(c.Pos()), kind, d+" (reached through "+fname(callee)+")", held)
+		}
 	}
 	for l := range cs.acq {
 		via := fname(callee)
@@ -317,7 +380,7 @@ func (a *analysis) applyCall(f *ssa.Function, c *ssa.CallCommon, held lockset, s
 
 // analyze runs the may-hold data-flow over f and returns its summary.
 func (a *analysis) analyze(f *ssa.Function) *summary {
-	sum := &summary{acq: lockset{}, via: map[string]string{}, exitHeld: lockset{}, rel: lockset{}}
+	sum := &summary{acq: lockset{}, via: map[string]string{}, exitHeld: lockset{}, rel: lockset{}, dyn: map[string]string{}}
 	in := make([]lockset, len(f.Blocks))
 	for i := range in {
 		in[i] = lockset{}
@@ -345,7 +408,7 @@ func (a *analysis) analyze(f *ssa.Function) *summary {
 			case *ssa.Go:
 				// new goroutine: empty held set; the callee is analysed as a root.
 				if x.Call.StaticCallee() == nil {
-					a.noteUnfollowed(f, &x.Call, "go-dynamic", lockset{})
+					a.noteUnfollowed(f, &x.Call, "go-dynamic", lockset{}, nil)
 				}
 			case *ssa.Defer:
 				// runs at RunDefers
@@ -378,7 +441,7 @@ func sameSummary(x, y *summary) bool {
 		}
 		return true
 	}
-	return eq(x.acq, y.acq) && eq(x.exitHeld, y.exitHeld) && eq(x.rel, y.rel)
+	return eq(x.acq, y.acq) && eq(x.exitHeld, y.exitHeld) && eq(x.rel, y.rel) && len(x.dyn) == len(y.dyn)
 }
 
 func main() {
@@ -420,6 +483,11 @@ func main() {
 			if !ok {
 				continue
 			}
+			if _, isIface := tn.Type().Underlying().(*types.Interface); !isIface && !tn.IsAlias() {
+				if named, ok := tn.Type().(*types.Named); ok && named.TypeParams().Len() == 0 {
+					a.concrete = append(a.concrete, named, types.NewPointer(named))
+				}
+			}
 			st, ok := tn.Type().Underlying().(*types.Struct)
 			if !ok {
 				continue
@@ -447,7 +515,7 @@ func main() {
 	}
 	sort.Slice(a.funcs, func(i, j int) bool { return a.funcs[i].String() < a.funcs[j].String() })
 	for _, f := range a.funcs {
-		a.sums[f] = &summary{acq: lockset{}, via: map[string]string{}, exitHeld: lockset{}, rel: lockset{}}
+		a.sums[f] = &summary{acq: lockset{}, via: map[string]string{}, exitHeld: lockset{}, rel: lockset{}, dyn: map[string]string{}}
 	}
 	// summaries to a fixpoint (bounded), then one recording pass
 	rounds := 0
